@@ -43,6 +43,10 @@ def main():
         rep.check_floors()
         if tier == "thorough" and hasattr(mod, "thorough"):
             mod.thorough(rep)
+        if tier == "thorough" and not a.replay and not rep.has_unlisted_violation():
+            # positive controls: the rules must still fire on known-bad variants (scratch copies outside /repo and /verif)
+            import selftest
+            selftest.run(prop, mod, rep, repo=a.repo)
     except AnchorLost as e:
         print("ANCHOR-LOST property=%s: %s" % (prop, e))
         print("the checker cannot vouch for this tree (exit 2); no verdict is given")
